@@ -1,6 +1,7 @@
 import Thanos.Common.Parse
 import Thanos.Model.CacheKeys
 import Thanos.Model.PostingsCodec
+import Thanos.Model.CachingBucket
 /-
   Line-protocol driver of the `index` family (C11 C12 C13 C14 C16).
   One request per line, one answer per line; every line is self-contained.
@@ -29,6 +30,17 @@ import Thanos.Model.PostingsCodec
     chunk  := u<hex> | c<hex> (data chunk, uncompressed / compressed) | p<hex> (padding chunk: no data)
     pc.dec dvs|dss <chunk>(|<chunk>)* <script>   -> <trace> e<0|1>
          (decode the given payload, cut into the given chunks; malformed payloads allowed)
+
+  C14 (caching bucket) — grammar
+    cb.hist <object hex> <S> <maxSub> <p> <op>(;<op>)*
+        one object in the wrapped in-memory bucket, a caching bucket with subrange size S and
+        MaxSubRequests maxSub in front of it, a history of reads; `p` = buffer size of the Read calls
+    op  := r<off>,<len>,<attrpat>,<subpat>     GetRange(off, len), read to EOF
+    pat := [012]+   how the lossy cache treats the i-th key of a Fetch call (cyclic):
+                    0 = return it if stored, 1 = miss this time, 2 = evict (miss and forget)
+    answer: one item per op, joined by ';':
+        <bytes hex | panic | err>/<A if the wrapped bucket's Attributes was called, else ->/
+        <GetRange calls on the wrapped bucket: start+len,…>/<stored subrange keys: start-end,…>
 -/
 open Thanos Thanos.Parse
 
@@ -218,11 +230,84 @@ def handleC12 : List String → Option String
   | _ => none
 end C12
 
+/-! ### C14 -/
+section C14
+open Thanos.CachingBucket
+
+structure CBState where
+  attrs : Bool                    -- attributes entry stored
+  subs : List (Nat × Nat)         -- stored subrange keys
+
+def patAt (pat : List Char) (i : Nat) : Char := pat.getD (i % pat.length) '0'
+
+def sortPairs (l : List (Nat × Nat)) : List (Nat × Nat) :=
+  (l.toArray.qsort fun a b => a.1 < b.1 || (a.1 == b.1 && a.2 < b.2)).toList
+
+def showPairs (sep : String) (l : List (Nat × Nat)) : String :=
+  joinWith "," ((sortPairs l).map fun (a, b) => s!"{a}{sep}{b}")
+
+/-- one GetRange of the history -/
+def cbRead (guard : Bool) (obj : Bytes) (S maxSub p : Nat) (st : CBState) (off len : Nat)
+    (attrPat subPat : List Char) : String × CBState :=
+  -- cachedAttributes
+  let c := patAt attrPat 0
+  let attrHit := st.attrs && c == '0'
+  let st := { st with attrs := true }    -- either still stored, or fetched and stored again
+  let size := obj.length
+  -- which subrange keys the cache returns, in the order the keys are requested
+  let endPos := min (off + len) size
+  let startRange := (off / S) * S
+  let endRange := (endPos / S) * S + (if endPos % S > 0 then S else 0)
+  let passThrough := guard && off ≥ size
+  let offs := if passThrough then [] else offsets S startRange endRange
+  let keyed := offs.zipIdx.map fun (o, i) => ((o, min (o + S) size), patAt subPat i)
+  let hitKeys := (keyed.filter fun (k, c) => c == '0' && st.subs.contains k).map (·.1)
+  let evicted := (keyed.filter fun (_, c) => c == '2').map (·.1)
+  let subs := st.subs.filter fun k => !evicted.contains k
+  let cache := fun (a b : Nat) => if hitKeys.contains (a, b) then some (slice obj a b) else none
+  let r := getRange guard obj S maxSub cache p off len
+  let out := match r.out with
+    | .ok bs => hexOfStr bs
+    | .error .panic => "panic"
+    | .error .failed => "err"
+  let subs := subs ++ r.stores.filter fun k => !subs.contains k
+  (s!"{out}/{if attrHit then "-" else "A"}/{showPairs "+" r.reads}/{showPairs "-" r.stores}", { st with subs := subs })
+
+def parseRead? (s : String) : Option (Nat × Nat × List Char × List Char) :=
+  if !s.startsWith "r" then none else
+  match splitChar ',' (s.drop 1).toString with
+  | [o, l, ap, sp] => do
+    let o ← parseNat? o
+    let l ← parseNat? l
+    if ap.isEmpty || sp.isEmpty then none else
+    pure (o, l, ap.toList, sp.toList)
+  | _ => none
+
+def cbHist (guard : Bool) (obj : Bytes) (S maxSub p : Nat) :
+    List (Nat × Nat × List Char × List Char) → CBState → List String
+  | [], _ => []
+  | (o, l, ap, sp) :: ops, st =>
+    let (a, st') := cbRead guard obj S maxSub p st o l ap sp
+    a :: cbHist guard obj S maxSub p ops st'
+
+def handleC14 : List String → Option String
+  | ["cb.hist", obj, S, maxSub, p, ops] => do
+    let obj ← strOfHex? obj
+    let S ← parseNat? S
+    let maxSub ← parseNat? maxSub
+    let p ← parseNat? p
+    let ops ← (splitChar ';' ops).mapM parseRead?
+    if S = 0 ∨ p = 0 then none else
+    pure (";".intercalate (cbHist true obj S maxSub p ops ⟨false, []⟩))
+  | _ => none
+end C14
+
 def handle (toks : List String) : String :=
   match toks with
   | [] => "bad-op"
   | t :: _ =>
-    let r := if t.startsWith "pc." then handleC12 toks else handleC13 toks
+    let r := if t.startsWith "pc." then handleC12 toks
+             else if t.startsWith "cb." then handleC14 toks else handleC13 toks
     match r with
     | some r => r
     | none => "bad-op"
